@@ -681,6 +681,95 @@ func checkC09(c *Check) {
 		c.SawFunc(f)
 	}
 
+	// ---- K9: whose entries a translating collector reads. The message metadata is shared by every layer that handles
+	// the message: when a pipeline is the target of a queue (or of another pipeline) whose own caller rewrote the
+	// recipient upstream, msgMeta.OriginalRcpts already holds that layer's (rewritten ↦ original) entry – and the
+	// rewritten address is exactly what this pipeline's caller passes to AddRcpt. A collector that translates through the
+	// shared table reports the result under the upstream original, a string its caller never gave it: the queue looks
+	// the failure up under its own recipient, finds nothing and counts the recipient as delivered. The table a collector
+	// translates through therefore belongs to the delivery that wrote it.
+	c.Rule("K9", "the pipeline's translating collector reads a table owned by that delivery (a field of the delivery object filled at the site that records the rewrite), not the message-wide OriginalRcpts that other layers write too", 1)
+	if r := c.need("K9", pipelineRel, "msgpipelineDelivery", "BodyNonAtomic"); r != nil {
+		info := r.Info
+		n := 0
+		ast.Inspect(r.FI.Decl.Body, func(x ast.Node) bool {
+			cl, ok := x.(*ast.CompositeLit)
+			if !ok {
+				return true
+			}
+			tn := namedOf(info.TypeOf(cl))
+			if tn == nil || objName(tn.Obj()) != "statusCollector" {
+				return true
+			}
+			for _, el := range cl.Elts {
+				kv, ok := el.(*ast.KeyValueExpr)
+				if !ok {
+					continue
+				}
+				if _, isMap := info.TypeOf(kv.Value).Underlying().(*types.Map); !isMap {
+					continue
+				}
+				n++
+				shared := false
+				ast.Inspect(kv.Value, func(y ast.Node) bool {
+					if sel, ok := y.(*ast.SelectorExpr); ok {
+						if fv := fieldOf(info, sel); fv != nil {
+							if o := fieldOwner(p, fv); o != nil && objName(o.Obj()) == "MsgMetadata" {
+								shared = true
+							}
+						}
+					}
+					return true
+				})
+				// the delivery's own table is written where the rewrite is recorded: same key, same value, same guard
+				if fv := fieldOf(info, kv.Value); fv != nil && !shared {
+					if ra := c.In(pipelineRel, "msgpipelineDelivery", "AddRcpt"); ra != nil {
+						ai := ra.Info
+						okStore, nStore := true, 0
+						ast.Inspect(ra.FI.Decl.Body, func(y ast.Node) bool {
+							bs, isBlk := y.(*ast.BlockStmt)
+							if !isBlk {
+								return true
+							}
+							for _, st := range bs.List {
+								as, isAs := st.(*ast.AssignStmt)
+								if !isAs || len(as.Lhs) != 1 || len(as.Rhs) != 1 {
+									continue
+								}
+								ix, isIx := ast.Unparen(as.Lhs[0]).(*ast.IndexExpr)
+								if !isIx || fieldOf(ai, ix.X) != fv {
+									continue
+								}
+								nStore++
+								twin := false
+								for _, st2 := range bs.List {
+									as2, ok2 := st2.(*ast.AssignStmt)
+									if !ok2 || len(as2.Lhs) != 1 || len(as2.Rhs) != 1 {
+										continue
+									}
+									ix2, ok3 := ast.Unparen(as2.Lhs[0]).(*ast.IndexExpr)
+									if ok3 && isField(ai, ix2.X, "MsgMetadata", "OriginalRcpts") && exprStr(ix2.Index) == exprStr(ix.Index) && exprStr(as2.Rhs[0]) == exprStr(as.Rhs[0]) {
+										twin = true
+									}
+								}
+								if !twin {
+									okStore = false
+								}
+							}
+							return true
+						})
+						c.Hold("K9", "msgpipelineDelivery.AddRcpt:own-table-filled", ra.FI.Decl.Pos(), okStore && nStore > 0, "the delivery's own table of rewrites is not filled at the site that records the rewrite in OriginalRcpts (same key, same value): results of rewritten recipients are not translated back")
+					}
+				}
+				c.Hold("K9", "msgpipelineDelivery.BodyNonAtomic:table"+itoa(n), kv.Pos(), !shared, "the collector translates result keys through "+exprStr(kv.Value)+", the message-wide table: an entry left there by an upstream layer (the pipeline in front of the queue rewrote alias@ to mbox@) makes this pipeline report mbox@'s failure under alias@ – its caller passed mbox@, does not find the failure and treats the recipient as delivered (no retry, no failure report)")
+			}
+			return true
+		})
+		if n == 0 {
+			c.Fail("K9", "msgpipelineDelivery.BodyNonAtomic:table", r.FI.Decl.Pos(), "undecided: no translating collector is built")
+		}
+	}
+
 	// ---- K8: the consumer of the keys. The queue reads per-recipient results back under the strings it passed to
 	// AddRcpt; its own collector must file them under the key it is called with (C10.R6).
 	c.Rule("K8", "the queue's result collector (partialError.SetStatus) files a failure under exactly the key it was called with (C10.R6)", 1)
@@ -876,8 +965,13 @@ func c09Translate(c *Check, pc *provCtx, sites []statusSite) {
 						if id.Name == "wrapped" && objOf(info, kv.Value) == cParam && cParam != nil {
 							okW = true
 						}
-						if id.Name == "originalRcpts" && isField(info, kv.Value, "MsgMetadata", "OriginalRcpts") {
-							okT = true
+						if id.Name == "originalRcpts" {
+							// the table of rewrites: the delivery's own (K9 decides that it must not be the message-wide one)
+							if fv := fieldOf(info, kv.Value); fv != nil {
+								if _, isMap := fv.Type().Underlying().(*types.Map); isMap {
+									okT = true
+								}
+							}
 						}
 					}
 				}
